@@ -16,6 +16,8 @@ RULE = ('names: 0..8 components, types over every var-number size <= 65535, valu
         'valid + a malformed corner list; wire: valid names + single-edit mutants; pairs of names for prefix/order; '
         'the prefix test through every representation of both arguments (list, URI, canonical URI, wire, string list) incl. names with empty components; '
         'call sequences convert / edit the result in place / convert again (a conversion is a function of its argument). '
+        'every conversion taking a name (canonical URI, URI, wire, normal form) given the name as list / URI / canonical URI / wire bytes, '
+        'bytearray and memoryview / list of URI strings, incl. names ending in empty components: same result as for the component list. '
         'Components BUILT from a value and a type (from_bytes / from_hex / from_number): types -1, 0, 1..8, 32, 50, 58, 251..257 (the '
         '1-octet/3-octet Type boundary), 300, 65534..65536, 70000 x value lengths 0,1,2,8,251..254,300 and numbers on every width boundary, '
         'against the model and an independent Type-Length-Value reference. '
@@ -339,6 +341,27 @@ def run(ctx):
                         ctx.violation('Name.is_prefix', 'prefix-vs-componentwise',
                                       f'is_prefix({ta}, {tb}) = {r[1:]}, component-wise equality says {want}', (xa, xb))
             ctx.case(('pair-reps', tuple(a), tuple(b)), True, None, 'pairs.representations')
+    # every conversion that takes a name, given the name in every accepted representation (also a memoryview of the wire):
+    # the result is the one for the component list -- the canonical URI, the URI, the wire and the normal form of a name do
+    # not depend on how the argument was written
+    convs = [('Name.to_canonical_uri', Name.to_canonical_uri, lambda x: x), ('Name.to_str', Name.to_str, lambda x: x),
+             ('Name.to_bytes', Name.to_bytes, bytes), ('Name.normalize', Name.normalize, lambda x: [bytes(c) for c in x])]
+    for a in ex_names:
+        ra = reps(a)
+        ra.append(('wire-view', memoryview(bytes(Name.encode(a)))))
+        ra.append(('wire-bytearray', bytearray(Name.encode(a))))
+        for site, f, conv in convs:
+            base = impl(f, list(a))
+            for ta, xa in ra:
+                if ta == 'list':
+                    continue
+                r = impl(f, xa)
+                if base[0] != 'ok' or r[0] != 'ok' or conv(r[1]) != conv(base[1]):
+                    ctx.violation(site, 'conversion-depends-on-representation',
+                                  f'{site}(<{ta}>) = {r[1:]!r:.120} but for the component list of the same name {base[1:]!r:.120}',
+                                  {'name': [bytes(c) for c in a], 'representation': ta,
+                                   'argument': bytes(xa) if isinstance(xa, (bytes, bytearray, memoryview)) else xa})
+        ctx.case(('conv-reps', tuple(a)), len(a) > 0, None, 'names.conversions.representations')
 
 
 def check_comp(ctx, M, Component, c, t, val):
